@@ -84,6 +84,8 @@ pub fn main() {
     let run = &run;
     crate::witness::c03_merged(run);
     crate::witness::c03_float(run);
+    let statics = static_family(run);
+    let statics = &statics;
     std::thread::scope(|sc| {
         for shard in 0..shards {
             sc.spawn(move || {
@@ -122,9 +124,26 @@ pub fn main() {
                     let case = Case::new(ts.clone(), gd, world, r.bool());
                     enumerate(run, &schema, &case, &mut r);
                 }
+                // static flavour: the generated derive-built family (harness/gens), a quarter of S1's cases per member
+                for m in statics.iter().filter(|m| m.name != "S1") {
+                    let mut i = shard;
+                    while i < static_cases / 4 {
+                        i += shards;
+                        let mut o = doc_opts(run);
+                        o.max_depth = 3;
+                        o.max_items = 3;
+                        o.kind = if m.ts.mutation.is_some() && r.chance(1, 4) { OpKind::Mutation } else { OpKind::Query };
+                        let gd = gen_doc(&m.ts, &mut r, &o);
+                        let world = World::new(r.next_u64());
+                        let case = Case::new(m.ts.clone(), gd, world, r.bool());
+                        run.count(&format!("static_cases_{}", m.name), 1);
+                        enumerate(run, &m.schema, &case, &mut r);
+                    }
+                }
             });
         }
     });
+    run.extra("static_schemas", static_family_extra(statics));
     crate::c27::c03_subscription_events(run);
     run.exhaustive(true);
     run.extra(
@@ -160,7 +179,7 @@ fn enumerate(run: &Run, schema: &AnySchema, case: &Case, r: &mut Rng) {
         if flavour == "static" {
             // fields of the eagerly built SimpleObject have no resolver that could fail
             let under_simple = base.calls.iter().any(|c| {
-                c.parent_ty == "Stats" && c.field != "derived" && (p == &c.path || p.starts_with(&format!("{}.", c.path)))
+                schema.eager_field(&c.parent_ty, &c.field) && (p == &c.path || p.starts_with(&format!("{}.", c.path)))
             });
             if under_simple {
                 continue;
